@@ -8,7 +8,7 @@ use crate::{HttpBody, HttpRequest, HttpResponse, LOG_TARGET, PingConfig};
 
 use futures_util::future::{self, Either};
 use futures_util::io::{BufReader, BufWriter};
-use futures_util::{Future, StreamExt, TryStreamExt};
+use futures_util::{Future, StreamExt};
 use hyper::upgrade::Upgraded;
 use hyper_util::rt::TokioIo;
 use jsonrpsee_core::middleware::{RpcServiceBuilder, RpcServiceT};
@@ -345,7 +345,7 @@ pub(crate) enum Shutdown {
 async fn graceful_shutdown<S>(
 	result: Result<Shutdown, SokettoError>,
 	pending_calls: mpsc::Receiver<()>,
-	ws_stream: S,
+	mut ws_stream: S,
 	mut conn_tx: oneshot::Sender<()>,
 	send_task_handle: tokio::task::JoinHandle<()>,
 ) where
@@ -355,7 +355,18 @@ async fn graceful_shutdown<S>(
 
 	if let Ok(Shutdown::Stopped) = result {
 		let graceful_shutdown = pending_calls.for_each(|_| async {});
-		let disconnect = ws_stream.try_for_each(|_| async { Ok(()) });
+		// Messages that arrive while the calls in flight are drained are discarded, an oversized one
+		// like any other (the receive loop keeps serving after it as well): it must not cut the drain
+		// short. Any other receive error means that the connection is gone.
+		let disconnect = async {
+			loop {
+				match ws_stream.next().await {
+					Some(Ok(_)) | Some(Err(SokettoError::MessageTooLarge { .. })) => {}
+					Some(Err(err)) => break Err(err),
+					None => break Ok(()),
+				}
+			}
+		};
 
 		tokio::select! {
 			_ = graceful_shutdown => {}
